@@ -1,0 +1,21 @@
+// SPDX-FileCopyrightText: 2026 The Pion community <https://pion.ly>
+// SPDX-License-Identifier: MIT
+
+//go:build verif
+
+package flexfec
+
+// C12Sizes returns len(streams) and the total number of buffered media
+// packets (property C12). Only compiled with the "verif" build tag.
+func C12Sizes(r *FecInterceptor) (int, int) {
+	r.mu.Lock()
+	defer r.mu.Unlock()
+	n := 0
+	for _, s := range r.streams {
+		s.mu.Lock()
+		n += len(s.packetBuffer)
+		s.mu.Unlock()
+	}
+
+	return len(r.streams), n
+}
